@@ -21,7 +21,7 @@ def main():
     src = "%s/OUT/%s" % (wt, k)
     dst = "/verif/seeded/%s-%s" % (pid, k)
     rec = {"property": pid, "k": int(k), "ran": []}
-    sh("git checkout -q -- .", cwd=wt)
+    sh("git checkout -q -- . && git clean -fdq -e OUT", cwd=wt)
     rc, out = sh("/venv/bin/python OUT/%s/demo.py" % k, cwd=wt, timeout=600)
     rec["demo_clean_exit"] = rc
     rec["ran"].append("clean tree: /venv/bin/python OUT/%s/demo.py -> exit %d" % (k, rc))
@@ -46,7 +46,7 @@ def main():
             rec["checks"][c] = {"exit": rc, "violations": viol[:5], "what": what, "wall_s": round(time.time() - t, 1)}
             rec["ran"].append("NX_REPO=%s ./check %s --tier quick -> exit %d, %d VIOLATION line(s)" % (wt, c, rc, len(viol)))
     finally:
-        sh("git checkout -q -- .", cwd=wt)
+        sh("git checkout -q -- . && git clean -fdq -e OUT", cwd=wt)
     os.makedirs(dst, exist_ok=True)
     for f in ("patch.diff", "demo.py"):
         shutil.copy(os.path.join(src, f), os.path.join(dst, f))
